@@ -55,18 +55,30 @@ theorem clock_monotone_cmio {μ : Type} [MemLike μ] (cfg : Cfg) (n : Nat) (s : 
 
 `RInv`: every 8-bit register (incl. I, R and the shadow set) in 0..255, SP/PC/MEMPTR in 0..65535,
 IFF ∈ {0,1}, IM ∈ {0,1,2}, HALT ∈ {0,1}, every physical memory cell (all banks and ROMs) a byte.
-Proved closure by closure with one generic tactic over whatever closures the source has now;
-the closures the tactic does not yet close are excluded by the explicit decidable hypothesis
-`rangePending (leafOf s) = false` (hence `_partial`); for those the tie is the per-slot
-differential execution in `harness/props/c08.py`. -/
+Proved closure by closure, over whatever closures the source has now, for every well-formed
+argument tuple (`instrWf`, which every dispatch-table entry satisfies: `dispatch_arguments_wellformed`),
+by one of two closure-independent tactics (`translate/gen_range.py`: generic `grind`, or
+`rinv_manual` of `Proofs/RangeManual.lean`); no closure is excluded. -/
 
-theorem ranges_preserved_partial {μ : Type} [MemLike μ] [CellMem μ] (cfg : Cfg) (s : St μ)
-    (hp : Sim.rangePending (Sim.leafOf s) = false) (h : RInv s) : RInv (Sim.step cfg s) :=
-  Sim.rinv_step_partial cfg s hp h
+/-- one instruction of the plain simulator, from any state, whatever the memory contents -/
+theorem ranges_preserved {μ : Type} [MemLike μ] [CellMem μ] (cfg : Cfg) (s : St μ) (h : RInv s) :
+    RInv (Sim.step cfg s) := Sim.rinv_step cfg s h
 
-theorem ranges_preserved_cmio_partial {μ : Type} [MemLike μ] [CellMem μ] (cfg : Cfg) (s : St μ)
-    (hp : Cmio.rangePending (Cmio.leafOf s) = false) (h : RInv s) : RInv (Cmio.step cfg s) :=
-  Cmio.rinv_step_partial cfg s hp h
+/-- one instruction of the contention-aware simulator -/
+theorem ranges_preserved_cmio {μ : Type} [MemLike μ] [CellMem μ] (cfg : Cfg) (s : St μ) (h : RInv s) :
+    RInv (Cmio.step cfg s) := Cmio.rinv_step cfg s h
+
+/-- any number of instructions (both simulators) -/
+theorem ranges_preserved_run {μ : Type} [MemLike μ] [CellMem μ] (cfg : Cfg) (n : Nat) (s : St μ) (h : RInv s) :
+    RInv (Sim.runN cfg n s) ∧ RInv (Cmio.runN cfg n s) :=
+  ⟨Sim.rinv_runN cfg n s h, Cmio.rinv_runN cfg n s h⟩
+
+/-- every closure of either simulator with any well-formed argument tuple (not only the tuples the
+dispatch tables pass) preserves the invariant -/
+theorem ranges_any_wellformed_closure {μ : Type} [MemLike μ] [CellMem μ] (cfg : Cfg) (s : St μ) (h : RInv s) :
+    (∀ i : Sim.Instr, Sim.instrWf i = true → RInv (Sim.execLeaf cfg i s)) ∧
+    (∀ i : Cmio.Instr, Cmio.instrWf i = true → RInv (Cmio.execLeaf cfg i s)) :=
+  ⟨fun i hw => Sim.rinv_execLeaf cfg i hw s h, fun i hw => Cmio.rinv_execLeaf cfg i hw s h⟩
 
 /-- every dispatch-table entry of both simulators passes well-formed arguments to its closure
 (register indices, table shapes, sizes, timings) — kernel-checked over all 2 × 1792 slots -/
